@@ -6,6 +6,7 @@ import (
 	"encoding/json"
 	"fmt"
 	"os"
+	"runtime/debug"
 	"sort"
 
 	"olricvet/internal/core"
@@ -113,7 +114,11 @@ func check(id, tier string) (code int) {
 		prop.Run(r)
 	}()
 	if tier == "thorough" {
+		r.DropProgram()
+		p = nil
+		debug.FreeOSMemory()
 		variants(r, id, prop)
+		debug.FreeOSMemory()
 		r.Sensitivity = sensitivity(id, prop)
 	}
 	return r.Finish()
